@@ -118,6 +118,29 @@ pub fn mark(kind: u8, root: u32, path: &[Op], op: Option<Op>) {
     TICKS[i].fetch_add(1, Ordering::Relaxed);
 }
 
+/// kind >= 4: a record of another engine (4 = instvar); `a` and the bytes are
+/// that engine's own encoding of what it is about to execute.
+pub fn mark_raw(kind: u8, a: u64, bytes: &[u8]) {
+    let Some(i) = my_slot() else { return };
+    let base = BASE.load(Ordering::Relaxed);
+    unsafe {
+        let p = (base + HEADER + i * SLOT_BYTES) as *mut u8;
+        let n = bytes.len().min(SLOT_BYTES - 64);
+        let w = p as *mut u64;
+        *w = 0;
+        *w.add(1) = PHASE.load(Ordering::Relaxed);
+        *w.add(2) = a;
+        *w.add(3) = kind as u64;
+        *w.add(4) = n as u64;
+        *w.add(5) = 0;
+        *w.add(6) = 0;
+        std::ptr::copy_nonoverlapping(bytes.as_ptr(), p.add(64), n);
+        *w = 1;
+    }
+    ACTIVE[i].store(1, Ordering::Relaxed);
+    TICKS[i].fetch_add(1, Ordering::Relaxed);
+}
+
 /// Called at the start of every execution on the real cache.
 #[inline]
 pub fn heartbeat() {
@@ -147,6 +170,21 @@ fn slot_json(i: usize, u: &Universe) -> Option<Value> {
             return None;
         }
         let n = *w.add(4) as usize;
+        if *w.add(3) >= 4 {
+            let bytes: Vec<u8> = (0..n).map(|k| *p.add(64 + k)).collect();
+            let a = *w.add(2);
+            let raw = format!("{a}:{}", bytes.iter().map(|b| format!("{b:02x}")).collect::<String>());
+            return Some(json!({
+                "phase": *w.add(1),
+                "root": a,
+                "kind": *w.add(3),
+                "truncated": false,
+                "path": [],
+                "op": null,
+                "raw": raw,
+                "readable": crate::instvar::describe_raw(a, &bytes),
+            }));
+        }
         let ops = p.add(64) as *const Op;
         let path: Vec<Op> = (0..n).map(|k| std::ptr::read(ops.add(k))).collect();
         let op = if *w.add(5) != 0 { Some(std::ptr::read(ops.add(n))) } else { None };
@@ -263,6 +301,8 @@ pub struct Skip {
     pub op: Option<Op>,
     pub kind: u8,
     pub reason: String,
+    /// kind >= 4: the other engine's own record
+    pub raw: Option<String>,
 }
 
 pub fn load_skips(path: Option<&String>) -> Vec<Skip> {
@@ -279,6 +319,7 @@ pub fn load_skips(path: Option<&String>) -> Vec<Skip> {
             op: op_from_json(&e["op"]),
             kind: e["kind"].as_u64().unwrap_or(0) as u8,
             reason: e["reason"].as_str().unwrap_or("").to_string(),
+            raw: e["raw"].as_str().map(|s| s.to_string()),
         });
     }
     out
